@@ -30,7 +30,8 @@ VERSIONS = [None] * 6 + list(range(1, 41)) + [str(i) for i in range(1, 41)] + ['
 ERRORS = [None] * 4 + ['L', 'M', 'Q', 'H', 'l', 'm', 'q', 'h', 'X', '', 'LL', 'low', '-']
 MODESV = [None] * 6 + oracle.MODES + ['Numeric', 'ALPHANUMERIC', 'Byte', 'KANJI', 'Hanzi', 'foo', '', 'bytes', 'eci', 'structured_append']
 MASKS = [None] * 6 + list(range(8)) + [str(i) for i in range(8)] + [8, -1, 9, 100, '8', '-1', 'a', '', '1.0', ' 1']
-ENCODINGS = [None] * 8 + ['utf-8', 'UTF-8', 'iso-8859-1', 'latin1', 'shift_jis', 'Shift-JIS', 'ascii', 'cp1252', 'utf-16-be',
+ENCODINGS = [None] * 8 + ['utf-8', 'UTF-8', 'iso-8859-1', 'latin1', 'shift_jis', 'Shift-JIS', 'ascii', 'cp1252', 'utf-16-be', 'utf-16', 'cp850',
+                          'mac_roman', 'utf-32', 'iso2022_jp',
                           'unknown-codec', 'utf8 ', '', 'rot13', 'idna', 'gb2312', 'big5', 'euc_kr', 'cp437']
 BOOLS = [True, False]
 COUNTS = [None] * 4 + list(range(1, 17)) + [0, 17, -1, 100]
@@ -65,7 +66,7 @@ def gen_cases(tier, seed):
         cls = rng.choice(['digits', 'alnum', 'ascii', 'latin1', 'kana', 'utf8', 'cyr', 'sjis_bytes', 'lead_trail', 'hanzi',
                           'bytes', 'int', 'empty'])
         content = gen.content_of(rng, cls, rng.choice([rng.randint(0, 5), rng.randint(1, 30), rng.randint(1, 200)]))
-        cases.append({'kind': 'make', 'fn': fn, 'content': content, 'kw': rnd_vector(rng, fn), 'tag': cls})
+        cases.append({'kind': 'make', 'fn': fn, 'content': content, 'kw': rnd_vector(rng, fn), 'tag': cls, 'twice': rng.random() < 0.5})
     # excluded combinations, systematically
     for v in ['M1', 'M2', 'M3', 'M4', 'm3']:
         cases.append({'kind': 'make', 'fn': 'make', 'content': '1', 'kw': {'version': v, 'error': 'H'}, 'tag': 'excluded'})
@@ -302,6 +303,16 @@ def run_make(case, rec):
                     rec.deviation(prop, kind, detail)
         return
     name = type(ex).__name__
+    if case.get('twice'):
+        # a refusal must not leave anything behind that changes the next identical call
+        try:
+            fn(case['content'], **kw)
+            second = 'accepted'
+        except Exception as ex2:  # noqa: BLE001
+            second = type(ex2).__name__
+        rec.count('repeated_refusals_compared')
+        if second != name:
+            rec.deviation('C14', 'repeated-call-differs', {'first': name, 'second': second})
     rec.count('refused:%s' % name)
     rec.seen('%s|%s|%s' % (case['fn'], name, given))
     if isinstance(ex, ValueError):
